@@ -185,6 +185,7 @@ func muxSignature(e muxExpect, why string) string {
 
 func checkC14(args []string) {
 	run := vx.NewRun("C14", "model_checking", args)
+	activeRun = run
 	run.Rule = "Muxer call histories enumerated by TLC from spec/Mux.tla (BFS to MAXLEN, plus -simulate for long ones); distinct = distinct histories whose Assemble result was checked (error expected and returned, or file validated by the strict reader and against both real parsers)"
 	run.Assumptions = []string{"payload tokens are real bitstreams produced by webp.Encode of this tree", "the strict container reader spec/Riff.tla is the reference for 'structurally valid'"}
 	toks := buildMuxTokens(run.Seed)
